@@ -10,6 +10,7 @@
 #define _GNU_SOURCE
 #include "vs.h"
 #include <errno.h>
+#include <signal.h>
 #include <stdio.h>
 #include <stdlib.h>
 #include <string.h>
@@ -86,6 +87,19 @@ static int pop(uint8_t *ch, uint8_t *nen, uint16_t *len)
 	return 1;
 }
 
+static int exec_limit(void)
+{
+	const char *e = getenv("VS_EXEC_LIMIT");
+	int n = e ? atoi(e) : 0;
+	return n > 0 ? n : 20;
+}
+
+static void exec_watchdog(int sig)
+{
+	(void)sig;
+	vs_fail(VS_LIVELOCK, "execution did not finish within %d s of wall clock time: a thread spins without reaching a scheduling point or the end", exec_limit());
+}
+
 static int run_child(vs_shared_t *sh, const uint8_t *ch, const uint8_t *nen, uint16_t len, int verbose, int use_vis)
 {
 	pid_t pid;
@@ -95,6 +109,9 @@ static int run_child(vs_shared_t *sh, const uint8_t *ch, const uint8_t *nen, uin
 	}
 	if (pid == 0) {
 		vs_setup(sh, ch, nen, len, BOUND, SPUR, use_vis ? &VIS : NULL, verbose);
+		/* watchdog: an execution that spins without ever reaching a scheduling point (or the end) would block the exploration forever */
+		signal(SIGALRM, exec_watchdog);
+		alarm((unsigned)exec_limit());
 		harness_main(hargc, hargv);
 		vs_end();
 		_exit(0);
